@@ -27,23 +27,26 @@ fn on(x: Option<u64>) -> String {
 enum POp {
     Put(u64, u64),
     Del(u64),
+    Cas(u64, u64, u64), // key, expected, new
 }
 impl POp {
     fn coq(&self) -> String {
         match self {
             POp::Put(k, v) => format!("Put {k} {v}"),
             POp::Del(k) => format!("Del {k}"),
+            POp::Cas(k, e, v) => format!("Cas {k} {e} {v}"),
         }
     }
     fn key(&self) -> u64 {
         match self {
-            POp::Put(k, _) | POp::Del(k) => *k,
+            POp::Put(k, _) | POp::Del(k) | POp::Cas(k, _, _) => *k,
         }
     }
     fn real(&self) -> Transaction {
         match self {
             POp::Put(k, v) => Transaction::Put { key: key(*k), data: vec![*v as u8] },
             POp::Del(k) => Transaction::Delete { key: key(*k) },
+            POp::Cas(k, e, v) => Transaction::CompareAndSwap { key: key(*k), expected_data: vec![*e as u8], new_data: vec![*v as u8] },
         }
     }
 }
@@ -481,7 +484,15 @@ fn run_script(acts: Vec<Act>, kk: u64, tt: u64, ctmo: u64, parts0: &[(Vec<(u64, 
 
 fn gen_ops(r: &mut Rng, kk: u64) -> Vec<POp> {
     let cnt = r.range(1, 2);
-    (0..cnt).map(|_| if r.chance(4, 5) { POp::Put(r.below(kk), r.range(1, 9)) } else { POp::Del(r.below(kk)) }).collect()
+    let cnt = if r.chance(1, 4) { cnt + 1 } else { cnt };
+    (0..cnt)
+        .map(|_| match r.below(10) {
+            0..=5 => POp::Put(r.below(kk), r.range(1, 9)),
+            6 | 7 => POp::Del(r.below(kk)),
+            // a compare-and-swap whose expectation often fails (values are 1..9): the rest of the batch must still run
+            _ => POp::Cas(r.below(kk), r.range(1, 9), r.range(1, 9)),
+        })
+        .collect()
 }
 
 fn run_random(r: &mut Rng, dist: &mut Dist) -> Outcome {
@@ -759,6 +770,17 @@ fn run_reprepare(r: &mut Rng, dist: &mut Dist) -> Outcome {
     let mut acts = vec![];
     let o1 = ops(r, &p1);
     acts.push(Act::Ev(Ev::Begin(p1.clone(), o1, false)));
+    let overtaken = r.chance(1, 4);
+    if overtaken {
+        // the coordinator gives up on T1 and its Abort reaches shard `star` before the Prepare does
+        for s in p1.iter().filter(|s| **s != star) {
+            acts.push(Act::Deliver("prepare", 1, *s, false));
+        }
+        acts.push(Act::Ev(if r.chance(2, 3) { Ev::Abort(1) } else { Ev::Advance(100001) }));
+        acts.push(Act::Ev(Ev::Timeouts));
+        acts.push(Act::Ev(Ev::TakeAborts));
+        acts.push(Act::Deliver("abort", 1, star, r.chance(1, 3)));
+    }
     for s in &p1 {
         acts.push(Act::Deliver("prepare", 1, *s, *s == star));
     }
@@ -767,7 +789,8 @@ fn run_reprepare(r: &mut Rng, dist: &mut Dist) -> Outcome {
             acts.push(Act::Deliver("vote", 1, *s, false));
         }
     }
-    match r.below(3) {
+    match r.below(if overtaken { 4 } else { 3 }) {
+        3 => {}
         0 => acts.push(Act::Ev(Ev::Advance(51))),
         1 => acts.push(Act::Ev(Ev::Sweep(star, r.chance(1, 2), 0))),
         _ => {
@@ -1149,6 +1172,44 @@ fn main() {
         ];
         let o = run_script(acts, 1, 2, 100000, &parts0, &mut dist);
         sched.push(&o.term, "corpus duplicate Prepare(T1) after cleanup_stale dropped T1 and T2 prepared on the key: must be refused (Conflict with T2)", true);
+    }
+
+    {
+        // a non-matching CompareAndSwap is skipped, the operations after it in the shard's batch still apply
+        let parts0 = vec![(vec![(0u64, 5u64)], 30000u64), (vec![(0u64, 5u64)], 30000u64)];
+        let acts = vec![
+            Act::Ev(Ev::Begin(vec![0, 1], vec![(0, vec![POp::Cas(0, 4, 9), POp::Put(1, 7)]), (1, vec![POp::Cas(0, 5, 9), POp::Put(1, 7), POp::Del(0)])], false)),
+            Act::Deliver("prepare", 1, 0, false),
+            Act::Deliver("prepare", 1, 1, false),
+            Act::Deliver("vote", 1, 0, false),
+            Act::Deliver("vote", 1, 1, false),
+            Act::Ev(Ev::Commit(1)),
+            Act::Deliver("commit", 1, 0, false),
+            Act::Deliver("commit", 1, 1, false),
+        ];
+        let o = run_script(acts, 2, 1, 100000, &parts0, &mut dist);
+        sched.push(&o.term, "corpus CompareAndSwap in a batch: shard 0's CAS does not match (k0 is 5, expected 4) and is skipped, Put k1 after it must still apply; shard 1's CAS matches", true);
+    }
+    {
+        // the Abort overtakes the Prepare: the shard has been told to abort T1 and must refuse the late Prepare
+        let parts0 = vec![(vec![], 30000u64), (vec![], 30000u64)];
+        let acts = vec![
+            Act::Ev(Ev::Begin(vec![0, 1], vec![(0, put(0, 1)), (1, put(1, 1))], false)),
+            Act::Deliver("prepare", 1, 0, false),
+            Act::Ev(Ev::Abort(1)),
+            Act::Deliver("abort", 1, 1, false),
+            Act::Deliver("prepare", 1, 1, false),
+            Act::Deliver("abort", 1, 0, false),
+            Act::Ev(Ev::Begin(vec![1], vec![(1, put(1, 2))], false)),
+            Act::Deliver("prepare", 2, 1, false),
+            Act::Ev(Ev::Deliver(0, false)),
+            Act::Ev(Ev::Deliver(0, false)),
+            Act::Ev(Ev::Deliver(0, false)),
+            Act::Ev(Ev::Commit(2)),
+            Act::Ev(Ev::Deliver(0, false)),
+        ];
+        let o = run_script(acts, 2, 2, 100000, &parts0, &mut dist);
+        sched.push(&o.term, "corpus Abort(T1) reaches shard 1 before Prepare(T1): the late Prepare must be refused (no zombie holding k1); T2 on k1 prepares and commits", true);
     }
 
     for i in 0..args.budget(700, 30000) {
